@@ -271,60 +271,48 @@ def f64_abs(x: ir.f64) -> ir.f64:
     return math.fabs(x)
 
 
-def f32_floor(x: ir.f32) -> ir.f32:
-    if math.isinf(x):
+def _round_with(func, x: float) -> float:
+    """Round with the given integer rounding function. NaN and infinities
+    pass through; a zero result keeps the sign of the operand (-0.5 -> -0.0).
+    """
+    if math.isnan(x) or math.isinf(x):
         return x
-    else:
-        return float(math.floor(x))
+    result = float(func(x))
+    if result == 0:
+        result = math.copysign(result, x)
+    return result
+
+
+def f32_floor(x: ir.f32) -> ir.f32:
+    return _round_with(math.floor, x)
 
 
 def f64_floor(x: ir.f64) -> ir.f64:
-    if math.isinf(x):
-        return x
-    else:
-        return float(math.floor(x))
+    return _round_with(math.floor, x)
 
 
 def f32_ceil(x: ir.f32) -> ir.f32:
-    if math.isinf(x):
-        return x
-    else:
-        return float(math.ceil(x))
+    return _round_with(math.ceil, x)
 
 
 def f64_ceil(x: ir.f64) -> ir.f64:
-    if math.isinf(x):
-        return x
-    else:
-        return float(math.ceil(x))
+    return _round_with(math.ceil, x)
 
 
 def f32_nearest(x: ir.f32) -> ir.f32:
-    if math.isinf(x):
-        return x
-    else:
-        return float(round(x))
+    return _round_with(round, x)
 
 
 def f64_nearest(x: ir.f64) -> ir.f64:
-    if math.isinf(x):
-        return x
-    else:
-        return float(round(x))
+    return _round_with(round, x)
 
 
 def f32_trunc(x: ir.f32) -> ir.f32:
-    if math.isinf(x):
-        return x
-    else:
-        return float(math.trunc(x))
+    return _round_with(math.trunc, x)
 
 
 def f64_trunc(x: ir.f64) -> ir.f64:
-    if math.isinf(x):
-        return x
-    else:
-        return float(math.trunc(x))
+    return _round_with(math.trunc, x)
 
 
 def unreachable() -> None:
